@@ -1362,6 +1362,8 @@ class ThreadsafeForwardingResult(TestResult):
 
     def startTestRun(self):
         super().startTestRun()
+        # Run-level tags buffered for the previous run are gone with it.
+        self._global_tags = set(), set()
         self.semaphore.acquire()
         try:
             self.result.startTestRun()
